@@ -159,8 +159,8 @@ def run_json(exe, args, timeout=120):
     return out, r.stderr, r.returncode
 
 
-def gen_plan(exe, seed):
-    return subprocess.run([exe, '--gen', str(seed)], capture_output=True, text=True).stdout
+def gen_plan(exe, seed, prop):
+    return subprocess.run([exe, '--prop', prop, '--gen', str(seed)], capture_output=True, text=True).stdout
 
 
 def run_batch(exe, prop, first, count, tag):
@@ -301,7 +301,7 @@ class Minimiser:
                 self.af_line = steps[self.af[0]]
         # 1. ddmin over removable lines (steps and action lists)
         def removable(l):
-            return l.kind in ('step', 'al') and l is not self.af_line
+            return l.kind != 'knob' and l is not self.af_line
         n = 2
         while True:
             idx = [i for i, l in enumerate(lines) if removable(l)]
@@ -334,9 +334,7 @@ class Minimiser:
                 i += 1
         # 3. shrink numbers toward zero
         for l in lines:
-            if l.kind not in ('step', 'al', 'knob'):
-                continue
-            if l.kind == 'knob' and l.name in ('nfd', 'scenario'):
+            if l.kind == 'knob' and l.name in ('nfd', 'scenario', 'hostile'):
                 continue
             for k in range(len(l.args)):
                 self._shrink(lines, l.args, k)
@@ -417,7 +415,7 @@ def handle_violation(exe, engine, prop, v, tree):
     af = v.get('af', [-1, -1, 0])
     workdir = os.path.join(BUILD, 'out')
     os.makedirs(workdir, exist_ok=True)
-    orig = gen_plan(exe, seed)
+    orig = gen_plan(exe, seed, prop)
     lines = parse_plan(orig)
     base = os.path.join(workdir, 'gate-%d.plan' % os.getpid())
     with open(base, 'w') as f:
@@ -454,7 +452,7 @@ def handle_violation(exe, engine, prop, v, tree):
 def sample_runs(exe, prop, first, n=2):
     out = []
     for s in range(first, first + n):
-        plan = gen_plan(exe, s)
+        plan = gen_plan(exe, s, prop)
         r = subprocess.run([exe, '--prop', prop, '--explain', '--seed', str(s)], capture_output=True, text=True)
         tr = r.stderr.splitlines()
         out.append({'seed': s, 'plan': plan.splitlines()[:60], 'trace_head': tr[:60], 'trace_lines': len(tr)})
